@@ -14,7 +14,13 @@ Inductive dkind := DGev | DGauss | DOther.
 Record pop := { pk : dkind; vm : R; vs : R; vx : R }.   (* kind of the population, the values in kwargs[k]; NO parameter of it is fixed *)
 Definition dstr (p : pop) : val := VStr (match pk p with DGev => "GEV" | DGauss => "GAUSSIAN" | DOther => "NONE" end).
 Definition fixd (p : pop) : val := VDict [].
-Definition kwd (p : pop) : val := VDict [(VStr "mean", snum (vm p)); (VStr "sigma", snum (vs p)); (VStr "xi", snum (vx p))].
+(* the dictionary of a population: exactly the parameters its distribution has *)
+Definition kwd (p : pop) : val :=
+  match pk p with
+  | DOther => VDict []
+  | DGauss => VDict [(VStr "mean", snum (vm p)); (VStr "sigma", snum (vs p))]
+  | DGev => VDict [(VStr "mean", snum (vm p)); (VStr "sigma", snum (vs p)); (VStr "xi", snum (vx p))]
+  end.
 (* the sampled parameters of one population, in vector order *)
 Definition free_vals (p : pop) : list val :=
   match pk p with
